@@ -7,7 +7,7 @@ LEVEL = "exploration"
 RULE = ("seeded random continua (2-5 annotators, 0..k units each, ten segment families incl. identical units across "
         "annotators, nested, long-overlapping, touching, negative times; labelled, unlabelled and mixed) x pooled "
         "dissimilarities of every built-in class and parameter value x both MIP back-ends; 12 % of the cases are editing "
-        "continua with > 100 000 candidate tuples, annotator names whose alphabetical order differs from numeric / "
+        "continua with > 100 000 candidate tuples, two-annotator continua whose candidate table is filled exactly to the brim (10 000 / 15 000 mutually alignable tuples) before isolated units add indispensable singletons, annotator names whose alphabetical order differs from numeric / "
         "case-insensitive / insertion order, and sessions (align, then add_annotator / merge of a unit-less annotator / add / remove / reset_bounds, align again "
         "on the same continuum and dissimilarity objects, 2-6 edits), plus a block in which one continuum object is aligned by 8 user threads at once with different dissimilarities; a case is non-trivial when "
         "the continuum has >= 2 units in total; distinct = distinct (continuum, dissimilarity, back-end) by SHA-1 of the "
